@@ -150,9 +150,14 @@ func genJSON(g *hv.EvalGen, feat map[string]int, depth int) *jnode {
 	case 1, 2, 3, 4:
 		feat["json:string-template"]++
 		var s string
-		if r.Chance(0.25) {
+		switch x := r.Intn(100); {
+		case x < 10:
+			s = "${" + nestExpr(g, feat) + "}"
+		case x < 20:
+			s = nestTemplate(g, feat)
+		case x < 40:
 			s = "${" + shadowWrap(g, feat) + "}"
-		} else {
+		default:
 			s = templateBody(g, feat)
 		}
 		return &jnode{str: &s}
@@ -283,6 +288,10 @@ func runNative(rep *hv.Report, r *hv.Rng, input, text string, ctx *hcl.EvalConte
 	R := roots(vars)
 	rep.Hist(fmt.Sprintf("%s:roots:%d", kind, min(len(R), 6)))
 	staticNative(rep, input, expr, R)
+	// occurrence by occurrence: the reported traversals are exactly the root-scope references (refs.go)
+	rw := refsOf(expr)
+	rw.hist(rep, "forscope:"+kind+":")
+	compareRefs(rep, input, "Variables()", vars, rw, len(rw.unknown) == 0)
 	full, _ := checkScopes(rep, r, "", input, ctx, R, func(c *hcl.EvalContext) string {
 		v, d := expr.Value(c)
 		return outcome(v, d, false)
@@ -314,13 +323,40 @@ func freeOfJSON(n *jnode, fv *fvState) {
 	}
 }
 
+// refsOfJSON: root-scope references / local occurrences of a generated JSON expression,
+// template by template (every string and every object key is a template of its own).
+func refsOfJSON(n *jnode, w *refWalker) {
+	tmpl := func(s string) {
+		e, d := hclsyntax.ParseTemplate([]byte(s), "", hcl.InitialPos)
+		if d.HasErrors() {
+			return // Variables() reports nothing for a template that does not parse
+		}
+		w.walk(e, nil, "", true)
+		w.closedShadow, w.closedFor = map[string]int{}, map[string]int{}
+	}
+	switch {
+	case n.str != nil:
+		tmpl(*n.str)
+	case n.arr != nil:
+		for _, c := range n.arr {
+			refsOfJSON(c, w)
+		}
+	case n.keys != nil:
+		for i := range n.keys {
+			tmpl(n.keys[i])
+			refsOfJSON(n.vals[i], w)
+		}
+	}
+}
+
 func runJSON(rep *hv.Report, r *hv.Rng, input, text string, tree *jnode, ctx *hcl.EvalContext) {
 	expr, pd := hcljson.ParseExpression([]byte(text), "e.json")
 	if pd.HasErrors() {
 		rep.Hist("json:parse-error")
 		return
 	}
-	R := roots(expr.Variables())
+	jvars := expr.Variables()
+	R := roots(jvars)
 	rep.Hist(fmt.Sprintf("json:roots:%d", min(len(R), 6)))
 	if tree != nil {
 		fv := newFV()
@@ -335,6 +371,33 @@ func runJSON(rep *hv.Report, r *hv.Rng, input, text string, tree *jnode, ctx *hc
 			if fv.binders[n] && !fv.free[n] {
 				rep.Fail(hv.Failure{Kind: "bound-name-reported", Input: input,
 					Detail: fmt.Sprintf("JSON expression: %q is only ever bound by a for expression / template for directive, yet Variables() reports it", n), Extra: map[string]string{"variable": n}})
+			}
+		}
+		// how often each root name is referenced (positions inside JSON strings are not comparable)
+		rw := newRefWalker()
+		refsOfJSON(tree, rw)
+		rw.hist(rep, "forscope:json:")
+		if len(rw.unknown) == 0 {
+			want, got, local := rootCounts(rw.refs), rootCounts(jvars), rootCounts(rw.locals)
+			names := map[string]bool{}
+			for n := range want {
+				names[n] = true
+			}
+			for n := range got {
+				names[n] = true
+			}
+			for _, n := range hv.SortedKeys(names) {
+				switch {
+				case got[n] > want[n] && local[n] > 0:
+					rep.Fail(hv.Failure{Kind: "bound-name-reported", Input: input, Extra: map[string]string{"variable": n},
+						Detail: fmt.Sprintf("JSON expression: Variables() reports %q %d times, but only %d of its occurrences refer to the root scope (%d are bound by a for expression / template for directive)", n, got[n], want[n], local[n])})
+				case got[n] > want[n]:
+					rep.Fail(hv.Failure{Kind: "reported-traversal-not-a-reference", Input: input, Extra: map[string]string{"variable": n},
+						Detail: fmt.Sprintf("JSON expression: Variables() reports %q %d times, the templates reference it %d times", n, got[n], want[n])})
+				case got[n] < want[n]:
+					rep.Fail(hv.Failure{Kind: "unreported-variable", Input: input, Extra: map[string]string{"variable": n},
+						Detail: fmt.Sprintf("JSON expression: Variables() reports %q %d times, the templates reference the root-scope variable %d times", n, got[n], want[n])})
+				}
 			}
 		}
 	}
